@@ -1,6 +1,7 @@
 import LibInj.Sqli.Check
 import LibInj.Sqli.Raw
 import LibInj.Xss.IsXSS
+import LibInj.Spec.SqliGrammar
 /-! Line-protocol driver: one operation per input line, one canonical observation per output line.
 The Go harness prints the same canonical form from the real package; the two streams are diffed. -/
 open LibInj LibInj.Sqli LibInj.H5 LibInj.Xss
@@ -52,11 +53,22 @@ def opStrCore (offset : Nat) (d : UInt8) (b : Bytes) : String :=
 def fmtH5 (ts : List Tok) : String :=
   String.intercalate ";" (ts.map fun t => s!"{t.ty.toNat},{t.off},{t.len}")
 
+/-- the grammar lists of C03 (`Spec/SqliGrammar.lean`), for comparison with the harness's lists -/
+def opC03List (kind : Bytes) : String :=
+  let l : List Bytes :=
+    if kind == [115, 107] then Spec.SqliGrammar.skeletons.map (Spec.SqliGrammar.join [32])
+    else if kind == [112, 114] then Spec.SqliGrammar.prefixes
+    else if kind == [116, 108] then Spec.SqliGrammar.tails
+    else if kind == [115, 112] then Spec.SqliGrammar.seps
+    else []
+  String.intercalate ";" (l.map fun b => if b.isEmpty then "-" else tohex b)
+
 def run (line : String) : String :=
   match line.trimAscii.toString.splitOn " " with
   | ["tok", flags, hex] => opTok flags.toNat! (unhex hex)
   | ["fp", flags, hex] => opFp flags.toNat! (unhex hex)
   | ["is", hex] => opIs (unhex hex)
+  | ["c03l", hex] => opC03List (unhex hex)
   | ["strcore", off, d, hex] => opStrCore off.toNat! d.toNat!.toUInt8 (unhex hex)
   | ["h5", ctx, hex] => showM fmtH5 (tokens (unhex hex) ctx.toNat!)
   | ["xc", ctx, hex] => showM toString (isXSSCtx (unhex hex) ctx.toNat!)
